@@ -49,8 +49,9 @@ def _did_runs(tier, seed):
     return [dict(profile="did", seed=seed, n=_sizes(tier, 40, 3000), extra=["-blocks", str(_sizes(tier, 12, 30))])]
 
 
-CHAIN_ASSUME = ["the chain model covers the message alphabet AOL(4) + DID(3) + bank MsgSend + authz Grant/Revoke/Exec (generic "
-                "authorizations, inner messages not themselves MsgExec); other SDK modules cannot write to the custom stores "
+CHAIN_ASSUME = ["the chain model covers the message alphabet AOL(4) + DID(3) + PNFT(7) + bank MsgSend, MsgMultiSend, delayed "
+                "MsgCreateVestingAccount + authz Grant/Revoke/Exec (generic authorizations, inner messages not themselves MsgExec); "
+                "other SDK modules cannot write to the custom stores "
                 "(store-key capability discipline of the SDK, trusted)",
                 "uint64 counters are unbounded N in the model; the 2^64-th record of one topic is refused by an explicit capacity "
                 "guard in the model where the real code would wrap (unreachable)",
@@ -124,7 +125,8 @@ prop(id="C15", vfile="Properties/C15.v",
 
 
 BURN_RULE = ("burn profile: blocks in which the burn address (and, as controls, ordinary accounts) receives coins by MsgSend (1-3 per "
-             "block, two denominations, amounts 0/1/dust/huge), by MsgCreateVestingAccount at the burn address (delayed, end time before/"
+             "block, two denominations, amounts 0/1/dust/huge), by MsgMultiSend (one input; outputs to the burn address and to an ordinary "
+             "account, also not adding up or without outputs), by MsgCreateVestingAccount at the burn address (delayed, end time before/"
              "after later blocks, then topped up) and as MsgExec inner sends, interleaved with AOL traffic and fee payments; after every "
              "block the monitor reads, on the implementation alone, the spendable/locked/total balance of the burn address, the supply of "
              "every denomination, all other balances touched only by the burn, and runs the registered x/crisis invariants; the B lines "
@@ -134,8 +136,9 @@ prop(id="C07", vfile="Properties/C07.v",
                               dict(profile="aol", seed=seed, n=_sizes(tier, 10, 500), extra=["-blocks", "10"])],
      rule=BURN_RULE, assumptions=CHAIN_ASSUME + [
          "x/bank (balances, supply, delayed vesting locks, SendCoins, SpendableCoins, BurnCoins) is modelled from the pinned SDK source "
-         "(Bank/Model.v) and checked differentially; MsgMultiSend, continuous/periodic vesting and minting by x/mint (inflation is zero "
-         "in the harness genesis) are outside the model; the monitors still observe the implementation under them",
+         "(Bank/Model.v) and checked differentially; continuous/periodic vesting and minting by x/mint (inflation is zero in the harness "
+         "genesis) are outside the model; a multi-send whose input and output sums name different denominations makes the SDK's "
+         "Coins.IsEqual panic (cosmos-sdk code): the model answers 'mismatch' and the generator avoids that shape",
          "fees_ok: fee denominations are well-formed (the SDK's ante handler rejects others before deduction)"],
      partial="'the other registered chain invariants' are checked by running the real crisis invariants after every block (monitor), not proved; "
              "x/bank is modelled, not verified")
@@ -222,11 +225,12 @@ prop(id="C10", vfile="Properties/C10.v",
              "losing the process memory with an intact database — torn database writes inside Commit are outside the model")
 
 prop(id="C09", vfile="Properties/C09.v",
-     runs=lambda tier, seed: [dict(profile="node", seed=seed + 7, n=_sizes(tier, 60, 2500), extra=["-blocks", "10", "-conc", "2"]),
+     runs=lambda tier, seed: [dict(profile="node", seed=seed + 7, n=_sizes(tier, 60, 2500), extra=["-blocks", "10"]),
+                              dict(profile="node", seed=seed + 11, n=_sizes(tier, 12, 600), extra=["-blocks", "8"], second_process=True),
                               dict(profile="aollist", seed=seed, n=_sizes(tier, 10, 500), extra=["-blocks", "4"])],
      rule=NODE_RULE + " || the twin replica is a second application object in the same process initialised from the same genesis bytes "
-          "(Go randomises map iteration per range statement, so map order differs between the two); thorough also re-runs the profile in "
-          "a second process with GOMAXPROCS=1 and another TZ and compares all application hashes",
+          "(Go randomises map iteration per range statement, so map order differs between the two); a third run is repeated in "
+          "a second process with GOMAXPROCS=1, another TZ and another start time and all application hashes are compared",
      assumptions=CHAIN_ASSUME + ["the model's transition is a function of (state, block time, transactions): determinism of the model is by "
                                  "construction; the theorems decide independence from side traffic, restarts and genesis map order, and the "
                                  "source tie (footprint) decides the absence of clock/randomness/goroutine/environment reads"],
